@@ -39,17 +39,23 @@ class MergeModel:
             if o[0] == "var":
                 self.hint_apps.append((bb, t))
                 self.H = o[1]
-        # creations of outputs
-        self.creates = []  # (bb, kind, id_origin_path)
-        for _, bb, t in calls_in([b], "storage::bitcask::log::create"):
-            o = peel(arg_origin(b, t, 0))
-            if o[0] == "call" and o[1]:
-                kind = o[1].split("::")[-1]
-                idp = access_path(o[2][1]) if len(o[2]) > 1 else None
-                self.creates.append((bb, kind, idp))
-        # assignments to W / H (whole local)
+        # assignments to W / H (whole local), and the files they are created on — seen through
+        # crate-local helpers (interprocedural origins)
         self.W_assign = self._assign_blocks(self.W)
         self.H_assign = self._assign_blocks(self.H)
+        self.creates = []  # (bb, name fn, id path)
+        self.W_origins = []
+        memo = {}
+        for which, assigns in (("W", self.W_assign), ("H", self.H_assign)):
+            for bi, si in sorted(assigns, key=lambda x: (x[0], str(x[1]))):
+                o = b.origin_call(bi) if si == "T" else b.origin_rvalue(b.blocks[bi]["stmts"][si]["rv"])
+                o = expand(prog, o, memo)
+                if which == "W":
+                    self.W_origins.append((bi, o))
+                for c in origin_mentions(o, lambda x: x[0] == "call" and x[1] == "storage::bitcask::log::create"):
+                    n = peel(c[2][0]) if c[2] else ("unknown", "")
+                    if n[0] == "call" and n[1]:
+                        self.creates.append((bi, n[1].split("::")[-1], access_path(n[2][1]) if len(n[2]) > 1 else None))
         # keydir entry field writes through deref_mut(entry)
         self.kd_writes = []  # (bb, field, origin)
         for bb in sorted(live):
@@ -163,15 +169,10 @@ class MergeModel:
             return False, "data output writer not identified"
         if "std::io::BufWriter<std::fs::File>" not in b.local_ty(self.W):
             return False, "data output writer is %s, not BufWriter<File>" % b.local_ty(self.W)
-        for bi, si in self.W_assign:
-            if si == "T":
-                t = b.term(bi)
-                if not is_call_to(t, "std::io::BufWriter::new"):
-                    return False, "writer created by %s (capacity is not the default)" % strip_generics(t.get("callee"))
-            else:
-                o = peel(b.origin_rvalue(b.blocks[bi]["stmts"][si]["rv"]))
-                if not (o[0] == "call" and o[1] == "std::io::BufWriter::new"):
-                    return False, "writer assigned from %s" % origin_str(o)
+        for bi, o in self.W_origins:
+            pk = peel(o)
+            if not (pk[0] == "call" and pk[1] == "std::io::BufWriter::new"):
+                return False, "writer created by %s (capacity is not the default)" % origin_str(pk)
         # LogDir::copy -> LogReader::copy_raw -> std::io::copy(_, dst param)
         cb = self.prog.callee_body(self.copies[0][1]) if self.copies else None
         if cb is None:
